@@ -374,7 +374,7 @@ class Explorer:
         if k == 'const':
             if o.get('def'):
                 return ('fn', short(o['def']), o.get('inst', ''))
-            val = o['v'].replace('const ', '')
+            val = o['v'][6:] if o['v'].startswith('const ') else o['v']
             if self.fx is not None and ('::' in val):
                 pf = self.fx.crates[self.fn.crate].get(val)
                 if pf is not None and ('::promoted[' in val or pf.kind in ('Const', 'AssocConst')) and pf.path != self.fn.path:
